@@ -502,6 +502,50 @@ class Engine:
         global CURRENT
         CURRENT = self
 
+    def len_equalities(self, body, bb):
+        """[(A, B)] collection terms with len(A) == len(B) established on every path to bb: the block is dominated by the edge of a
+        switch on `len(A) == len(B)` (or `!=`) taken when the lengths are equal"""
+        key = ('leq', body.key)
+        tab = self._memo.get(key)
+        if tab is None:
+            tab = []
+            self._memo[key] = tab          # re-entrant reads see the (still empty) table
+            cfg = self.bx(body).cfg
+            for b in body.blocks:
+                t = b['term']
+                if b['cleanup'] or t['k'] != 'switch' or b['i'] not in cfg.reach_set:
+                    continue
+                try:
+                    c = self.operand(body, b['i'], TERM_IDX, t['discr'])
+                except Exception:
+                    continue
+                if c.tag != 'binop' or c[1] not in ('Eq', 'Ne'):
+                    continue
+                sides = []
+                for x in (c[2], c[3]):
+                    while x.tag == 'cast':
+                        x = x[2]
+                    if x.tag == 'call' and x[1].split('::')[-1] == 'len' and len(x[2]) == 1:
+                        sides.append(x[2][0])
+                if len(sides) != 2:
+                    continue
+                arms = {str(v): tgt for v, tgt in t['arms']}
+                # the edge on which the comparison is true (non-zero) / false (zero)
+                true_tgt = t['otherwise'] if '0' in arms else None
+                false_tgt = arms.get('0')
+                eq_tgt = true_tgt if c[1] == 'Eq' else false_tgt
+                if eq_tgt is not None:
+                    tab.append((b['i'], eq_tgt, sides[0], sides[1]))
+        if not tab:
+            return ()
+        cfg = self.bx(body).cfg
+        out = []
+        for (sw, tgt, a, b_) in tab:
+            others = [x for x in cfg.pred.get(tgt, []) if x != sw and not cfg.dominates(tgt, x)]
+            if not others and cfg.dominates(tgt, bb):
+                out.append((a, b_))
+        return tuple(out)
+
     def bx(self, body):
         k = body.key
         if k not in self._idx:
@@ -603,7 +647,7 @@ class Engine:
                 else:
                     t = project_variant(t, v)
             elif k == 'index':
-                t = mk_elemat(t, self.local(body, bb, idx, e['l'], depth + 1))
+                t = mk_elemat(t, self.local(body, bb, idx, e['l'], depth + 1), self.len_equalities(body, bb))
             elif k == 'cindex':
                 t = mk_elemat(t, T('const', -e['off'] - 1 if e['from_end'] else e['off']))
             elif k == 'subslice':
@@ -1272,7 +1316,8 @@ def _same_collection(a, b):
     return a is b
 
 
-def mk_elemat(coll, i):
+def mk_elemat(coll, i, eqs=()):
+    """element selection.  `eqs`: pairs of collection terms known (by a dominating guard) to have the same length at this point"""
     # `for i in 0..x.len() { .. x[i] .. }` visits each element of x in order, like `for e in x`; from 1: like `x.iter().skip(1)`
     # `x[x.len() - 1 - i]` under `for i in 0..x.len()` (or a zip-like bound that includes x): the elements of x from the back
     if i.tag == 'binop' and i[1] == 'Sub' and CURRENT is not None:
@@ -1288,6 +1333,12 @@ def mk_elemat(coll, i):
         view = index_view(i[1]) if i[1].tag == 'range' else i[1]
         if view is not None and view.tag != 'range':
             ok, skip = _view_component(view, coll)
+            if not ok:
+                # indexed with the counter of a walk over another collection that a dominating guard makes equally long
+                for a, b in eqs:
+                    for x, y in ((a, b), (b, a)):
+                        if _same_collection(x, coll) and _view_component(view, y)[0]:
+                            ok, skip = True, _view_component(view, y)[1]
             if ok:
                 el = mk_elem(CURRENT, coll)
                 return mk_via('skip', el) if skip else el
